@@ -662,7 +662,29 @@ func cmdReplay(args []string) int {
 			extra[rel] = f
 		}
 	}
-	if _, err := prepareOverlay([]string{rel}, workDir, extra); err != nil {
+	// the same overlay a run uses: the harness package, the model dirs (database model / native counters) and
+	// whatever the harness dir requires (zz_requires)
+	rels := []string{rel}
+	addRel := func(r string) {
+		for _, x := range rels {
+			if x == r {
+				return
+			}
+		}
+		rels = append(rels, r)
+	}
+	for _, md := range modelDirs() {
+		addRel(md)
+	}
+	if req, rerr := os.ReadFile(filepath.Join(verifRoot, "harness", rel, "zz_requires")); rerr == nil {
+		for _, line := range strings.Split(string(req), "\n") {
+			if line = strings.TrimSpace(line); line != "" && !strings.HasPrefix(line, "#") {
+				addRel(line)
+			}
+		}
+	}
+	sort.Strings(rels)
+	if _, err := prepareOverlay(rels, workDir, extra); err != nil {
 		fmt.Println(err)
 		return 2
 	}
